@@ -141,6 +141,34 @@ def p_C12(tier, seed):
     return f
 
 
+# ------------------------------------------------------------------ C05 cost
+def p_C05(tier, seed):
+    # model level: MCQueue's Refines invariant includes the tag "cost" (comparisons used by the modelled
+    # algorithm <= Cost!Bound) for every reachable state and every operation of the alphabet
+    f = engines.Findings()
+    n, mp = scope(tier, (4, 1), (5, 2))
+    for kind in ("pq", "dpq"):
+        wd = vlib.workdir("C05_mc_" + kind)
+        consts = {"Items": vlib.tla_set(engines.keyset(n)), "MaxP": str(mp), "Kind": vlib.tla_str(kind), "Emit": "FALSE",
+                  "Alphabet": vlib.tla_str("full")}
+        mc = vlib.run_mc("MCQueue", consts, ["WFInv", "OrdInv", "Refines", "PeekInv"], wd)
+        if mc["violated"]:
+            raise ToolError("MCQueue invariant violated: %s" % mc["violated"])
+        log("[cost/%s] MCQueue %d items x %d priorities: %d states, %d transitions: every modelled operation within Cost!Bound"
+            % (kind, n, mp + 1, mc["distinct"], mc["generated"]))
+        f.stats["states"] += mc["distinct"]
+        f.stats["transitions"] += mc["generated"]
+        f.stats["engines"].append({"engine": "MCQueue/cost", "kind": kind, "items": n, "distinct_states": mc["distinct"]})
+    sizes = scope(tier, [16, 64, 256, 1024, 4096, 16384, 65536], [16, 64, 256, 1024, 4096, 16384, 65536, 262144, 1048576])
+    lin = scope(tier, [16, 256, 4096, 65536], [16, 256, 4096, 65536, 1048576])
+    f.merge(engines.engine_E("C05", ["pq", "dpq"], sizes, lin, seed))
+    # the same bound on the comparison counts of ordinary small histories (drift twin also compares them exactly)
+    nh, nk, no = scope(tier, (6, [16, 40], 200), (24, [16, 40, 100], 1000))
+    g = engines.engine_B("C05", ["pq", "dpq"], seed, nh, nk, no, check_every=0)
+    f.merge(g)
+    return f
+
+
 # ------------------------------------------------------------------ C06 sorted consumption
 def p_C06(tier, seed):
     n, mp = scope(tier, (4, 2), (5, 2))
@@ -439,6 +467,8 @@ PROPS = {
             "relevant": lambda fl: bool(set(fl["tags"]) & CONTENT_TAGS)},
     "C04": {"run": p_C04, "level": "model_checking", "aborts": True,
             "relevant": lambda fl: bool(set(fl["tags"]) & SAFETY_TAGS)},
+    "C05": {"run": p_C05, "level": "model_checking",
+            "relevant": lambda fl: "cost" in fl["tags"]},
     "C06": {"run": p_C06, "level": "model_checking",
             "relevant": lambda fl: (fl["op"] == "sorted" and fl["event"].get("mode") in ("vec", "iter", "asc_vec", "desc_vec")) or
             (fl["op"] == "into_calls" and fl["cause"].get("it") == "sorted"
